@@ -353,7 +353,8 @@ pub fn random_trace(seed: u64) -> Trace {
     }
     s.extend(nav_pref_steps(&mut rng));
     let n_valid = pools::VALID_EXPRS.len();
-    s.push(Step::Call(Op::SetMathml(ExprRef::Pool(rng.below(n_valid)))));
+    let first = if rng.chance(0.3) { ExprRef::Corpus(rng.below(pools::corpus().len())) } else { ExprRef::Pool(rng.below(n_valid)) };
+    s.push(Step::Call(Op::SetMathml(first)));
     let n = rng.range(5, 150);
     // swarm: per run probabilities
     let p_key = *rng.pick(&[0.0, 0.1, 0.3]);
@@ -383,7 +384,8 @@ pub fn random_trace(seed: u64) -> Trace {
         let r = (rng.next_u64() % 10_000) as f64 / 10_000.0;
         if r < p_newexpr {
             let e = match rng.below(10) {
-                0..=6 => ExprRef::Pool(rng.below(n_valid)),
+                0..=4 => ExprRef::Pool(rng.below(n_valid)),
+                5 | 6 => ExprRef::Corpus(rng.below(pools::corpus().len())),
                 7 => ExprRef::Feedback,
                 _ => ExprRef::Bad(rng.below(pools::INVALID_EXPRS.len())),
             };
